@@ -630,7 +630,7 @@ cdef class ExtendedZOrderNNPS(ZOrderNNPS):
             bint asymmetric=False):
         ZOrderNNPS.__init__(
             self, dim, particles, radius_scale, ghost_layers, domain,
-            cache, sort_gids, H=H, asymmetric=asymmetric
+            fixed_h, cache, sort_gids, H=H, asymmetric=asymmetric
         )
 
     def __cinit__(self, int dim, list particles, double radius_scale = 2.0,
